@@ -38,9 +38,17 @@ Proof.
   apply andb_true_iff in H. destruct H as [H1 H2]. apply N.eqb_eq in H1. subst. f_equal. apply IH. exact H2.
 Qed.
 
+Lemma traits_eqb_eq a : forall b, traits_eqb a b = true -> a = b.
+Proof.
+  induction a as [|x a IH]; destruct b as [|y b]; cbn [traits_eqb]; intro H; try discriminate; [reflexivity|].
+  apply andb_true_iff in H. destruct H as [H1 H2]. f_equal; [destruct x, y; try discriminate; reflexivity|apply IH; exact H2].
+Qed.
+
 Lemma udet_eqb_eq a b : udet_eqb a b = true -> a = b.
 Proof.
   destruct a, b; cbn [udet_eqb]; intro H; try discriminate; try reflexivity.
+  - apply andb_true_iff in H. destruct H as [H H3]. apply andb_true_iff in H. destruct H as [H1 H2].
+    apply ustr_eqb_eq in H1. apply traits_eqb_eq in H2. apply ids_eqb_eq in H3. subst. reflexivity.
   - apply N.eqb_eq in H. subst. reflexivity.
   - apply N.eqb_eq in H. subst. reflexivity.
   - apply andb_true_iff in H. destruct H as [H1 H2].
